@@ -143,6 +143,7 @@ unsigned char sk_pattern(int tag, long off);
 void sk_logev(int kind, int a, int b, int c, int r);
 void sk_mon(int code, int a, int b);
 int  sk_nalloc(void);
+int  sk_is_alloc(const void *p);  /* is p a live allocation made by the library (allocation ledger)? */
 void sk_fs_add(const char *path, int flags); /* flags: 1 exists, 2 executable, 4 directory, 8 unopenable(EACCES) */
 /* FILE* registry for fileno() */
 void *sk_file_for_fd(int fd);
